@@ -241,7 +241,8 @@ theorem chain_leader {f : Core} (c : Core) (x : LCtx) (hcl : c.closed = false) :
 
 /-- the generator after its first `next()` on an empty buffer -/
 def cWait (c0 : Core) : Core :=
-  { c0 with ended := some false, closed := false, errored := false, gen := .waitStart }
+  { c0 with ended := some false, closed := false, errored := false,
+            parms := resetOf c0.resetPT c0.parms, trails := resetOf c0.resetPT c0.trails, gen := .waitStart }
 
 /-- the generator once the first bytes have arrived, inside `parseHead` -/
 def cStarted (c0 : Core) : Core :=
@@ -707,30 +708,39 @@ structure RspHead (max : Nat) (sl : Bytes) (ls : List Bytes) (ver : Nat × Nat) 
   hdrs : foldHdr [] ls = some H
   notEvented : isEvented H = false
 
-/-- the fresh parser -/
-def core0 (kind : Kind) (m0 : Bytes) (max : Nat) : Core := (init kind m0 max).core
+/-- a parser whose generator has just been made: a new `Requestant` / `Respondent`, or a reused one
+after `makeParser()` (fields of the previous message may still be there); the tree is the one
+repaired by fixes/D29c (parms / trails are reset) -/
+structure Fresh (kind : Kind) (c0 : Core) : Prop where
+  kind : c0.kind = kind
+  gen : c0.gen = .fresh
+  started : c0.started = false
+  resetPT : c0.resetPT = true
+  escaped : c0.escaped = none
+
+theorem fresh_init (kind : Kind) (m0 : Bytes) (max : Nat) : Fresh kind (init kind m0 max).core :=
+  ⟨rfl, rfl, rfl, rfl, rfl⟩
 
 /-- `Requestant` when the empty line after the headers is reached -/
-def reqAtHeadEnd (m0 : Bytes) (max : Nat) (m u v : Bytes) (H : Hdrs) : Core :=
-  { reqAfterStart (core0 .req m0 max) m u v with gen := .hdrs H }
+def reqAtHeadEnd (c0 : Core) (m u v : Bytes) (H : Hdrs) : Core :=
+  { reqAfterStart c0 m u v with gen := .hdrs H }
 
 /-- `Respondent` when the empty line after the headers is reached -/
-def rspAtHeadEnd (m0 : Bytes) (max : Nat) (ver : Nat × Nat) (status : Nat) (reason : Bytes) (H : Hdrs) : Core :=
-  { rspAfterStart (core0 .rsp m0 max) ver status reason with gen := .hdrs H }
+def rspAtHeadEnd (c0 : Core) (ver : Nat × Nat) (status : Nat) (reason : Bytes) (H : Hdrs) : Core :=
+  { rspAfterStart c0 ver status reason with gen := .hdrs H }
 
 /-- chain of the head of a request followed by `more` -/
-theorem chain_reqHead {f : Core} {max : Nat} (hmax : 0 < max) {m0 sl m u v : Bytes} {ls : List Bytes} {H : Hdrs}
-    (w : ReqHead max sl ls m u v H) (cB : Core) (more : List Elem)
-    (hd : ∀ tail, headDone (reqAtHeadEnd m0 max m u v H) H tail = .cont cB tail)
+theorem chain_reqHead {f : Core} {c0 : Core} (hfr : Fresh .req c0) (hmax : 0 < c0.max) {sl m u v : Bytes} {ls : List Bytes} {H : Hdrs}
+    (w : ReqHead c0.max sl ls m u v H) (cB : Core) (more : List Elem)
+    (hd : ∀ tail, headDone (reqAtHeadEnd c0 m u v H) H tail = .cont cB tail)
     (hm : Chain f cB more) :
-    ∃ e es, Chain f (core0 .req m0 max) (e :: es) ∧
+    ∃ e es, Chain f c0 (e :: es) ∧
       segsOf (e :: es) = headBytes sl ls ++ segsOf more := by
-  have c0k : (core0 .req m0 max).kind = .req := rfl
-  have e1 := reqStart_ok (core0 .req m0 max) rfl rfl rfl sl m u v w.clean w.short w.parsed w.version w.url
+  have e1 := reqStart_ok c0 hfr.kind hfr.gen hfr.started sl m u v w.clean w.short w.parsed w.version w.url
   have hHlen := foldHdr_length ls [] H (by simp) w.hdrs
-  have e3 := headEnd_ok (reqAtHeadEnd m0 max m u v H) cB H rfl rfl hHlen hmax hd
-  obtain ⟨ch, sg⟩ := chain_leader (f := f) (reqAfterStart (core0 .req m0 max) m u v) .head rfl ls [] H
-    (⟨crlf, (· = reqAtHeadEnd m0 max m u v H), cB⟩ :: more) w.lines w.hdrs ⟨rfl, e3, hm⟩
+  have e3 := headEnd_ok (reqAtHeadEnd c0 m u v H) cB H rfl rfl hHlen hmax hd
+  obtain ⟨ch, sg⟩ := chain_leader (f := f) (reqAfterStart c0 m u v) .head rfl ls [] H
+    (⟨crlf, (· = reqAtHeadEnd c0 m u v H), cB⟩ :: more) w.lines w.hdrs ⟨rfl, e3, hm⟩
   refine ⟨_, _, ⟨Or.inl rfl, e1, ch⟩, ?_⟩
   simp only [segsOf] at sg ⊢
   rw [sg]
@@ -740,19 +750,19 @@ theorem chain_reqHead {f : Core} {max : Nat} (hmax : 0 < max) {m0 sl m u v : Byt
 def W3 (c0 : Core) (c : Core) : Prop := c = c0 ∨ c = cWait c0 ∨ c = cStarted c0
 
 /-- chain of the head of a response followed by `more`, from any of the start cores -/
-theorem chain_rspHead' {f : Core} {max : Nat} (hmax : 0 < max) {m0 sl reason : Bytes} {ver : Nat × Nat}
+theorem chain_rspHead' {f : Core} {c0 : Core} (hfr : Fresh .rsp c0) (hmax : 0 < c0.max) {sl reason : Bytes} {ver : Nat × Nat}
     {status : Nat} {ls : List Bytes} {H : Hdrs}
-    (w : RspHead max sl ls ver status reason H) (cB : Core) (more : List Elem)
-    (hd : ∀ tail, headDone (rspAtHeadEnd m0 max ver status reason H) H tail = .cont cB tail)
+    (w : RspHead c0.max sl ls ver status reason H) (cB : Core) (more : List Elem)
+    (hd : ∀ tail, headDone (rspAtHeadEnd c0 ver status reason H) H tail = .cont cB tail)
     (hm : Chain f cB more) :
-    ∃ e es, (∀ c, W3 (core0 .rsp m0 max) c → Chain f c (e :: es)) ∧
+    ∃ e es, (∀ c, W3 c0 c → Chain f c (e :: es)) ∧
       segsOf (e :: es) = headBytes sl ls ++ segsOf more := by
   obtain ⟨v, hp, hv⟩ := w.parsed
-  have e1 := rspStart_ok (core0 .rsp m0 max) rfl rfl rfl sl v reason status ver w.clean w.short hp w.not100 hv
+  have e1 := rspStart_ok c0 hfr.kind hfr.gen hfr.started sl v reason status ver w.clean w.short hp w.not100 hv
   have hHlen := foldHdr_length ls [] H (by simp) w.hdrs
-  have e3 := headEnd_ok (rspAtHeadEnd m0 max ver status reason H) cB H rfl rfl hHlen hmax hd
-  obtain ⟨ch, sg⟩ := chain_leader (f := f) (rspAfterStart (core0 .rsp m0 max) ver status reason) .head rfl ls [] H
-    (⟨crlf, (· = rspAtHeadEnd m0 max ver status reason H), cB⟩ :: more) w.lines w.hdrs ⟨rfl, e3, hm⟩
+  have e3 := headEnd_ok (rspAtHeadEnd c0 ver status reason H) cB H rfl rfl hHlen hmax hd
+  obtain ⟨ch, sg⟩ := chain_leader (f := f) (rspAfterStart c0 ver status reason) .head rfl ls [] H
+    (⟨crlf, (· = rspAtHeadEnd c0 ver status reason H), cB⟩ :: more) w.lines w.hdrs ⟨rfl, e3, hm⟩
   refine ⟨_, _, fun c hc => ⟨hc, e1, ch⟩, ?_⟩
   simp only [segsOf] at sg ⊢
   rw [sg]
@@ -836,10 +846,10 @@ theorem contEnd_ok (c : Core) (h : Hdrs) (hg : c.gen = .contHdrs h) (hcl : c.clo
     simp [resumeCheck, hg, closedCond_false hcl]
 
 /-- any number of interim responses in front of a chain that starts at the status line -/
-theorem chain_interims {f : Core} {max : Nat} (hmax : 0 < max) (m0 : Bytes) (more : List Elem)
-    (hm : ∀ c, W3 (core0 .rsp m0 max) c → Chain f c more) :
-    ∀ (pre : List Interim), (∀ i ∈ pre, i.ok max) →
-      ∃ els, (∀ c, W3 (core0 .rsp m0 max) c → Chain f c (els ++ more)) ∧
+theorem chain_interims {f : Core} {c0 : Core} (hfr : Fresh .rsp c0) (hmax : 0 < c0.max) (more : List Elem)
+    (hm : ∀ c, W3 c0 c → Chain f c more) :
+    ∀ (pre : List Interim), (∀ i ∈ pre, i.ok c0.max) →
+      ∃ els, (∀ c, W3 c0 c → Chain f c (els ++ more)) ∧
         segsOf (els ++ more) = interimBytes pre ++ segsOf more ∧ (pre ≠ [] → els ≠ []) := by
   intro pre
   induction pre with
@@ -848,8 +858,7 @@ theorem chain_interims {f : Core} {max : Nat} (hmax : 0 < max) (m0 : Bytes) (mor
     intro hok
     obtain ⟨els, hch, hsg, _⟩ := ih (fun j hj => hok j (by simp [hj]))
     obtain ⟨h1, h2, ⟨v, r, h3⟩, h4, ⟨h, h5⟩⟩ := hok i (by simp)
-    let c0 := core0 .rsp m0 max
-    have e1 := rspStart100_ok c0 rfl rfl rfl i.sl v r h1 h2 h3
+    have e1 := rspStart100_ok c0 hfr.kind hfr.gen hfr.started i.sl v r h1 h2 h3
     have hHlen := foldHdr_length i.ls [] h (by simp) h5
     have e3 := contEnd_ok { cStarted c0 with gen := .contHdrs h } h rfl rfl hHlen hmax
     have hnext : Chain f { cStarted c0 with gen := .startLine } (els ++ more) := hch _ (Or.inr (Or.inr rfl))
@@ -875,15 +884,15 @@ theorem chain_interims {f : Core} {max : Nat} (hmax : 0 < max) (m0 : Bytes) (mor
       simp [interimBytes, headBytes, List.append_assoc]
 
 /-- chain of interim responses and the head of a response followed by `more` -/
-theorem chain_rspHead {f : Core} {max : Nat} (hmax : 0 < max) {m0 sl reason : Bytes} {ver : Nat × Nat}
-    {status : Nat} {ls : List Bytes} {H : Hdrs} (pre : List Interim) (hpre : ∀ i ∈ pre, i.ok max)
-    (w : RspHead max sl ls ver status reason H) (cB : Core) (more : List Elem)
-    (hd : ∀ tail, headDone (rspAtHeadEnd m0 max ver status reason H) H tail = .cont cB tail)
+theorem chain_rspHead {f : Core} {c0 : Core} (hfr : Fresh .rsp c0) (hmax : 0 < c0.max) {sl reason : Bytes} {ver : Nat × Nat}
+    {status : Nat} {ls : List Bytes} {H : Hdrs} (pre : List Interim) (hpre : ∀ i ∈ pre, i.ok c0.max)
+    (w : RspHead c0.max sl ls ver status reason H) (cB : Core) (more : List Elem)
+    (hd : ∀ tail, headDone (rspAtHeadEnd c0 ver status reason H) H tail = .cont cB tail)
     (hm : Chain f cB more) :
-    ∃ e es, Chain f (core0 .rsp m0 max) (e :: es) ∧
+    ∃ e es, Chain f c0 (e :: es) ∧
       segsOf (e :: es) = interimBytes pre ++ (headBytes sl ls ++ segsOf more) := by
-  obtain ⟨e, es, hch, hsg⟩ := chain_rspHead' (f := f) hmax (m0 := m0) w cB more hd hm
-  obtain ⟨els, hch', hsg', _⟩ := chain_interims hmax m0 (e :: es) hch pre hpre
+  obtain ⟨e, es, hch, hsg⟩ := chain_rspHead' (f := f) hfr hmax w cB more hd hm
+  obtain ⟨els, hch', hsg', _⟩ := chain_interims hfr hmax (e :: es) hch pre hpre
   cases hels : els ++ e :: es with
   | nil => simp at hels
   | cons e' es' =>
@@ -947,101 +956,101 @@ theorem tail_chunked (cB : Core) (hg : cB.gen = .chunkSize) (hcl : cB.closed = f
 
 /-! ### the five shapes of a well-formed message, for every way of cutting the stream -/
 
-theorem request_length_any_split {max : Nat} (hmax : 0 < max) {m0 sl m u v : Bytes} {ls : List Bytes}
-    {H : Hdrs} (w : ReqHead max sl ls m u v H) (hch : isChunked H = false)
+theorem request_length_any_split {c0 : Core} (hfr : Fresh .req c0) (hmax : 0 < c0.max) {sl m u v : Bytes} {ls : List Bytes}
+    {H : Hdrs} (w : ReqHead c0.max sl ls m u v H) (hch : isChunked H = false)
     (data rest : Bytes) (hn : reqLen H = some data.length) (ps : List Bytes)
     (hps : ps.flatten = headBytes sl ls ++ (data ++ rest)) :
-    feedAll (init .req m0 max) ps =
-      { core := doneCore { reqHeadCore (reqAtHeadEnd m0 max m u v H) H with body := [], gen := .bodyLength } data,
+    feedAll ({ core := c0, msg := [] }) ps =
+      { core := doneCore { reqHeadCore (reqAtHeadEnd c0 m u v H) H with body := [], gen := .bodyLength } data,
         msg := rest } := by
-  have hd := fun tail => req_headDone_length (c := reqAtHeadEnd m0 max m u v H) rfl hch hn tail
+  have hd := fun tail => req_headDone_length (c := reqAtHeadEnd c0 m u v H) hfr.kind hch hn tail
   obtain ⟨f, more, hm, hf, hs⟩ := tail_length
-    { reqHeadCore (reqAtHeadEnd m0 max m u v H) H with body := [], gen := .bodyLength } data rfl rfl
+    { reqHeadCore (reqAtHeadEnd c0 m u v H) H with body := [], gen := .bodyLength } data rfl rfl
     (by simp [reqHeadCore, hch, hn])
-  obtain ⟨e, es, hch', hsg⟩ := chain_reqHead (f := f) hmax (m0 := m0) w _ more hd hm
+  obtain ⟨e, es, hch', hsg⟩ := chain_reqHead (f := f) hfr hmax w _ more hd hm
   exact script_done hf rfl hch' ps (by rw [hsg, hs, hps]; simp [List.append_assoc])
 
-theorem response_length_any_split {max : Nat} (hmax : 0 < max) {m0 sl reason : Bytes} {ver : Nat × Nat}
-    {status : Nat} {ls : List Bytes} {H : Hdrs} (pre : List Interim) (hpre : ∀ i ∈ pre, i.ok max)
-    (w : RspHead max sl ls ver status reason H)
+theorem response_length_any_split {c0 : Core} (hfr : Fresh .rsp c0) (hmax : 0 < c0.max) {sl reason : Bytes} {ver : Nat × Nat}
+    {status : Nat} {ls : List Bytes} {H : Hdrs} (pre : List Interim) (hpre : ∀ i ∈ pre, i.ok c0.max)
+    (w : RspHead c0.max sl ls ver status reason H)
     (hch : isChunked H = false) (data rest : Bytes)
-    (hn : rspLen (rspAtHeadEnd m0 max ver status reason H) H = some data.length) (ps : List Bytes)
+    (hn : rspLen (rspAtHeadEnd c0 ver status reason H) H = some data.length) (ps : List Bytes)
     (hps : ps.flatten = interimBytes pre ++ (headBytes sl ls ++ (data ++ rest))) :
-    feedAll (init .rsp m0 max) ps =
-      { core := doneCore { rspHeadCore' (rspAtHeadEnd m0 max ver status reason H) H with
+    feedAll ({ core := c0, msg := [] }) ps =
+      { core := doneCore { rspHeadCore' (rspAtHeadEnd c0 ver status reason H) H with
                             body := [], gen := .bodyLength } data,
         msg := rest } := by
-  have hd := fun tail => rsp_headDone_length (c := rspAtHeadEnd m0 max ver status reason H) rfl
+  have hd := fun tail => rsp_headDone_length (c := rspAtHeadEnd c0 ver status reason H) hfr.kind
     w.notEvented hch hn tail
   obtain ⟨f, more, hm, hf, hs⟩ := tail_length
-    { rspHeadCore' (rspAtHeadEnd m0 max ver status reason H) H with body := [], gen := .bodyLength } data rfl rfl
+    { rspHeadCore' (rspAtHeadEnd c0 ver status reason H) H with body := [], gen := .bodyLength } data rfl rfl
     (by simp [rspHeadCore', rspHeadCore, hn])
-  obtain ⟨e, es, hch', hsg⟩ := chain_rspHead (f := f) hmax (m0 := m0) pre hpre w _ more hd hm
+  obtain ⟨e, es, hch', hsg⟩ := chain_rspHead (f := f) hfr hmax pre hpre w _ more hd hm
   exact script_done hf rfl hch' ps (by rw [hsg, hs, hps]; simp [List.append_assoc])
 
-theorem request_chunked_any_split {max : Nat} (hmax : 0 < max) {m0 sl m u v : Bytes} {ls : List Bytes}
-    {H : Hdrs} (w : ReqHead max sl ls m u v H) (hch : isChunked H = true)
-    (ks : List Chunk) (hks : ∀ k ∈ ks, k.wf max)
-    (ll : Bytes) (pm0 : Parms) (hll : cleanLine ll) (hlls : ll.length < max) (hl0 : chunkLine ll = .ok (0, pm0))
-    (ts : List Bytes) (Tr : Hdrs) (hts : ∀ l ∈ ts, goodLine max l) (hTr : foldHdr [] ts = some Tr)
+theorem request_chunked_any_split {c0 : Core} (hfr : Fresh .req c0) (hmax : 0 < c0.max) {sl m u v : Bytes} {ls : List Bytes}
+    {H : Hdrs} (w : ReqHead c0.max sl ls m u v H) (hch : isChunked H = true)
+    (ks : List Chunk) (hks : ∀ k ∈ ks, k.wf c0.max)
+    (ll : Bytes) (pm0 : Parms) (hll : cleanLine ll) (hlls : ll.length < c0.max) (hl0 : chunkLine ll = .ok (0, pm0))
+    (ts : List Bytes) (Tr : Hdrs) (hts : ∀ l ∈ ts, goodLine c0.max l) (hTr : foldHdr [] ts = some Tr)
     (rest : Bytes) (ps : List Bytes)
     (hps : ps.flatten = headBytes sl ls ++ (chunksBytes ks ++ (lastBytes ll ts ++ rest))) :
-    feedAll (init .req m0 max) ps =
-      { core := chunkedDone { reqHeadCore (reqAtHeadEnd m0 max m u v H) H with
+    feedAll ({ core := c0, msg := [] }) ps =
+      { core := chunkedDone { reqHeadCore (reqAtHeadEnd c0 m u v H) H with
                                body := [], parms := some [], gen := .chunkSize } ks pm0 Tr,
         msg := rest } := by
-  have hd := fun tail => req_headDone_chunked (c := reqAtHeadEnd m0 max m u v H) rfl rfl hch tail
+  have hd := fun tail => req_headDone_chunked (c := reqAtHeadEnd c0 m u v H) hfr.kind rfl hch tail
   obtain ⟨more, hm, hs, _⟩ := tail_chunked
-    { reqHeadCore (reqAtHeadEnd m0 max m u v H) H with body := [], parms := some [], gen := .chunkSize }
+    { reqHeadCore (reqAtHeadEnd c0 m u v H) H with body := [], parms := some [], gen := .chunkSize }
     rfl rfl hmax ks hks ll pm0 hll hlls hl0 ts Tr hts hTr
-  obtain ⟨e, es, hch', hsg⟩ := chain_reqHead hmax (m0 := m0) w _ more hd hm
+  obtain ⟨e, es, hch', hsg⟩ := chain_reqHead hfr hmax w _ more hd hm
   exact script_done (fun t => run_done _ rfl t) rfl hch' ps (by rw [hsg, hs, hps]; simp [List.append_assoc])
 
-theorem response_chunked_any_split {max : Nat} (hmax : 0 < max) {m0 sl reason : Bytes} {ver : Nat × Nat}
-    {status : Nat} {ls : List Bytes} {H : Hdrs} (pre : List Interim) (hpre : ∀ i ∈ pre, i.ok max)
-    (w : RspHead max sl ls ver status reason H)
+theorem response_chunked_any_split {c0 : Core} (hfr : Fresh .rsp c0) (hmax : 0 < c0.max) {sl reason : Bytes} {ver : Nat × Nat}
+    {status : Nat} {ls : List Bytes} {H : Hdrs} (pre : List Interim) (hpre : ∀ i ∈ pre, i.ok c0.max)
+    (w : RspHead c0.max sl ls ver status reason H)
     (hch : isChunked H = true)
-    (ks : List Chunk) (hks : ∀ k ∈ ks, k.wf max)
-    (ll : Bytes) (pm0 : Parms) (hll : cleanLine ll) (hlls : ll.length < max) (hl0 : chunkLine ll = .ok (0, pm0))
-    (ts : List Bytes) (Tr : Hdrs) (hts : ∀ l ∈ ts, goodLine max l) (hTr : foldHdr [] ts = some Tr)
+    (ks : List Chunk) (hks : ∀ k ∈ ks, k.wf c0.max)
+    (ll : Bytes) (pm0 : Parms) (hll : cleanLine ll) (hlls : ll.length < c0.max) (hl0 : chunkLine ll = .ok (0, pm0))
+    (ts : List Bytes) (Tr : Hdrs) (hts : ∀ l ∈ ts, goodLine c0.max l) (hTr : foldHdr [] ts = some Tr)
     (rest : Bytes) (ps : List Bytes)
     (hps : ps.flatten = interimBytes pre ++ (headBytes sl ls ++ (chunksBytes ks ++ (lastBytes ll ts ++ rest)))) :
-    feedAll (init .rsp m0 max) ps =
-      { core := chunkedDone { rspHeadCore' (rspAtHeadEnd m0 max ver status reason H) H with
+    feedAll ({ core := c0, msg := [] }) ps =
+      { core := chunkedDone { rspHeadCore' (rspAtHeadEnd c0 ver status reason H) H with
                                body := [], parms := some [], gen := .chunkSize } ks pm0 Tr,
         msg := rest } := by
-  have hd := fun tail => rsp_headDone_chunked (c := rspAtHeadEnd m0 max ver status reason H) rfl rfl
+  have hd := fun tail => rsp_headDone_chunked (c := rspAtHeadEnd c0 ver status reason H) hfr.kind rfl
     w.notEvented hch tail
   obtain ⟨more, hm, hs, _⟩ := tail_chunked
-    { rspHeadCore' (rspAtHeadEnd m0 max ver status reason H) H with body := [], parms := some [], gen := .chunkSize }
+    { rspHeadCore' (rspAtHeadEnd c0 ver status reason H) H with body := [], parms := some [], gen := .chunkSize }
     rfl rfl hmax ks hks ll pm0 hll hlls hl0 ts Tr hts hTr
-  obtain ⟨e, es, hch', hsg⟩ := chain_rspHead hmax (m0 := m0) pre hpre w _ more hd hm
+  obtain ⟨e, es, hch', hsg⟩ := chain_rspHead hfr hmax pre hpre w _ more hd hm
   exact script_done (fun t => run_done _ rfl t) rfl hch' ps (by rw [hsg, hs, hps]; simp [List.append_assoc])
 
 /-- a response whose body ends when the connection closes: all bytes after the head are body,
 and `close(); parse()` completes the message -/
-theorem response_close_any_split {max : Nat} (hmax : 0 < max) {m0 sl reason : Bytes} {ver : Nat × Nat}
-    {status : Nat} {ls : List Bytes} {H : Hdrs} (pre : List Interim) (hpre : ∀ i ∈ pre, i.ok max)
-    (w : RspHead max sl ls ver status reason H)
+theorem response_close_any_split {c0 : Core} (hfr : Fresh .rsp c0) (hmax : 0 < c0.max) {sl reason : Bytes} {ver : Nat × Nat}
+    {status : Nat} {ls : List Bytes} {H : Hdrs} (pre : List Interim) (hpre : ∀ i ∈ pre, i.ok c0.max)
+    (w : RspHead c0.max sl ls ver status reason H)
     (hch : isChunked H = false)
-    (hn : rspLen (rspAtHeadEnd m0 max ver status reason H) H = none) (body : Bytes) (ps : List Bytes)
+    (hn : rspLen (rspAtHeadEnd c0 ver status reason H) H = none) (body : Bytes) (ps : List Bytes)
     (hps : ps.flatten = interimBytes pre ++ (headBytes sl ls ++ body)) :
-    feedAll (init .rsp m0 max) ps =
-      { core := { rspHeadCore' (rspAtHeadEnd m0 max ver status reason H) H with
+    feedAll ({ core := c0, msg := [] }) ps =
+      { core := { rspHeadCore' (rspAtHeadEnd c0 ver status reason H) H with
                    body := body, gen := .bodyClose },
         msg := [] } ∧
-    parse (close (feedAll (init .rsp m0 max) ps)) =
-      { core := doneCore { rspHeadCore' (rspAtHeadEnd m0 max ver status reason H) H with
+    parse (close (feedAll ({ core := c0, msg := [] }) ps)) =
+      { core := doneCore { rspHeadCore' (rspAtHeadEnd c0 ver status reason H) H with
                             closed := true, gen := .bodyClose } body,
         msg := [] } := by
-  have hd := fun tail => rsp_headDone_close (c := rspAtHeadEnd m0 max ver status reason H) rfl
+  have hd := fun tail => rsp_headDone_close (c := rspAtHeadEnd c0 ver status reason H) hfr.kind
     w.notEvented hch hn tail
   obtain ⟨e, es, hch', hsg⟩ := chain_rspHead
-    (f := { rspHeadCore' (rspAtHeadEnd m0 max ver status reason H) H with body := [], gen := .bodyClose })
-    hmax (m0 := m0) pre hpre w _ [] hd rfl
+    (f := { rspHeadCore' (rspAtHeadEnd c0 ver status reason H) H with body := [], gen := .bodyClose })
+    hfr hmax pre hpre w _ [] hd rfl
   have h1 := script_close (rest := body) rfl rfl rfl hch' ps (by rw [hsg, hps]; simp [segsOf])
   refine ⟨h1, ?_⟩
-  rw [show init .rsp m0 max = { core := core0 .rsp m0 max, msg := [] } from rfl, h1, parse_eq]
+  rw [h1, parse_eq]
   simp only [close, resumeCheck]
   rw [run_unfold]
   simp [stepOn, finishBody, doneCore]
